@@ -17,7 +17,7 @@ LEVEL_TEXT = ('Bounded symbolic verification, inductive in the history: the real
 LEVEL_NOTE = ('Twisted modelled by vf/env/twisted_stub.py (trusted, hand-checked). Single-connection regime. One step from an '
               'invariant state covers histories of any length only as far as the invariant (vf/session.in_state) describes the '
               'reachable states; the from-boot sequences cross-check it to depth 3 (quick) / 4 (thorough).')
-LEVEL_ADDED = "Also: invariant states with an earlier connection in the history (finished or still closing) and with the hold time an earlier session negotiated still in the FSM; the TCP-up row checks the OPEN's version / AS / hold-time fields; the OpenSent/BGPOpen row checks hold timer = negotiated value and 0 < keepalive interval < hold; event classes for type-specific bad lengths (badlen) and out-of-range UPDATE length fields (upd_trunc). The TCP-up row also requires the connect-retry timer stopped and the hold timer armed; in histories from boot the agent's own connect-retry timer may not expire during a session; composite event: a NOTIFICATION followed by more messages in the same TCP segment. Timer rows: KEEPALIVE / UPDATE in Established restart the hold timer (the step runs one second after the timers were armed), nothing is left armed after a manual stop."
+LEVEL_ADDED = "Also: invariant states with an earlier connection in the history (finished or still closing) and with the hold time an earlier session negotiated still in the FSM; the TCP-up row checks the OPEN's version / AS / hold-time fields; the OpenSent/BGPOpen row checks hold timer = negotiated value and 0 < keepalive interval < hold; event classes for type-specific bad lengths (badlen) and out-of-range UPDATE length fields (upd_trunc). The TCP-up row also requires the connect-retry timer stopped and the hold timer armed; in histories from boot the agent's own connect-retry timer may not expire during a session; composite event: a NOTIFICATION followed by more messages in the same TCP segment. Timer rows: KEEPALIVE / UPDATE in Established restart the hold timer (the step runs one second after the timers were armed), nothing is left armed after a manual stop. A session that ends with nothing left to close arms the IdleHoldTimer; the OpenConfirm KEEPALIVE restarts the hold timer."
 TECHNIQUE = 'symbolic one-step FSM conformance from invariant states + bounded symbolic event sequences from boot (CrossHair+z3) against an RFC 4271 relation'
 EXPLANATION = 'C01: (state, event class) obligations with symbolic fields against vf/ref/rfc4271_fsm.py; symbolic event sequences from boot.'
 BOUNDS = ('6 states x ~25 event classes; OPEN version 0..255, AS 0..65535 / 4-octet, hold 0..65535, id; NOTIFICATION code/subcode 0..255; '
